@@ -128,8 +128,23 @@ class G:
                     result_type[name] = "number"
             elif kind == "context":
                 d["entries"] = [("ea", self.num_expr(nums, 2, calls)), ("eb", self.num_expr(nums + ["ea"], 1)), ("ec", self.str_expr(strs, 1))]
+                more = []
                 if r.random() < 0.5:
-                    d["result"] = self.num_expr(nums + ["ea", "eb"], 1)
+                    # boxed expressions nested in context entries: relation, nested context with a result, decision table over an
+                    # earlier entry, boxed invocation of a required knowledge model (numeric results only)
+                    d["entries"].append(("ed", ("__relation__", ["ra", "rb"], [[self.num_expr(nums + ["ea"], 1), self.num_expr(nums + ["eb"], 1)] for _ in range(r.randint(1, 2))])))
+                    d["entries"].append(("ee", ("__ctx_result__", [("na", self.num_expr(nums + ["ea", "eb"], 1)), ("nb", self.num_expr(nums + ["na"], 1))], self.num_expr(nums + ["na", "nb", "ea"], 1))))
+                    d["entries"].append(("ef", ("__table__", self.table("ea"), None)))
+                    more = ["ee"]
+                    numeric_bkms = [b for b in m["bkms"] if b["kind"] == "literal" or (b["kind"] == "context" and b.get("result") is not None)]
+                    if numeric_bkms:
+                        b = r.choice(numeric_bkms)
+                        if b["name"] not in req_bkm:
+                            req_bkm.append(b["name"])
+                        d["entries"].append(("eg", ("__invocation__", b["name"], [(prm, self.num_expr(nums + ["ea", "ee"], 1)) for prm in b["params"]])))
+                        more.append("eg")
+                if r.random() < 0.5:
+                    d["result"] = self.num_expr(nums + ["ea", "eb"] + more, 1)
                     result_type[name] = "number"
                 else:
                     d["result"] = None
@@ -321,12 +336,26 @@ def to_xml(m):
     return "\n".join(p)
 
 
+def _expr_xml(e):
+    """literal expression, or one of the boxed forms that may sit inside a context entry"""
+    t = e[0]
+    if t == "__ctx_result__":
+        return _context_xml(e[1], e[2])
+    if t == "__table__":
+        return _table_xml(e[1])
+    if t == "__relation__":
+        return "<relation>" + "".join('<column name="%s"/>' % c for c in e[1]) + "".join("<row>" + "".join(_lit(x) for x in row) + "</row>" for row in e[2]) + "</relation>"
+    if t == "__invocation__":
+        return "<invocation>" + _lit(("name", e[1])) + "".join('<binding><parameter name="%s"/>%s</binding>' % (prm, _lit(x)) for prm, x in e[2]) + "</invocation>"
+    return _lit(e)
+
+
 def _context_xml(entries, result):
     p = ["<context>"]
     for name, e in entries:
-        p.append('<contextEntry><variable name="%s"/>%s</contextEntry>' % (name, _lit(e)))
+        p.append('<contextEntry><variable name="%s"/>%s</contextEntry>' % (name, _expr_xml(e)))
     if result is not None:
-        p.append("<contextEntry>%s</contextEntry>" % _lit(result))
+        p.append("<contextEntry>%s</contextEntry>" % _expr_xml(result))
     p.append("</context>")
     return "".join(p)
 
@@ -491,7 +520,13 @@ def ev(e, env):
     if t == "__ctx_result__":
         return eval_context(e[1], e[2], env)
     if t == "__table__":
-        return e[2].table_value(e[1], rfeel.lookup(env, e[1]["src"]))
+        return Ref.table_value(e[2], e[1], rfeel.lookup(env, e[1]["src"]))
+    if t == "__relation__":
+        return [{c: ev(x, env) for c, x in zip(e[1], row)} for row in e[2]]
+    if t == "__invocation__":
+        # boxed invocation: every binding formula is evaluated in the caller's scope, then the callee is applied by name
+        args = [(prm, ("__value__", ev(x, env))) for prm, x in e[2]]
+        return ev(("callnamed", ("name", e[1]), args), env)
     if t == "__service__":
         s, ref = e[1], e[2]
         frame = env[-1]
